@@ -65,6 +65,10 @@ func objVersion(o metav1.Object) int {
 func keyVersions(objs []metav1.Object) []string {
 	out := make([]string, 0, len(objs))
 	for _, o := range objs {
+		if o == nil {
+			out = append(out, "<nil entry>")
+			continue
+		}
 		if o.GetNamespace() == markerNS {
 			continue
 		}
